@@ -60,9 +60,9 @@ type Prop struct {
 	Race        bool
 	TestName    string // go test function in package host
 	Gen         func(rng *rand.Rand, tier string) []spec.Case
-	Batch       int  // cases per child (0 = all in one)
-	Children    int  // concurrent children
-	Solo        bool // one case per child
+	Batch       int           // cases per child (0 = all in one)
+	Children    int           // concurrent children
+	Solo        bool          // one case per child
 	PerCase     time.Duration // watchdog budget per case (child timeout = base + n*PerCase/parallelism)
 	Base        time.Duration
 	Env         func(c []spec.Case) []string
@@ -87,11 +87,11 @@ type Run struct {
 		Case int
 		V    Violation
 	}
-	RunDir   string
-	RaceLogs []string
-	Batch    []spec.Event // events a child emitted for the batch as a whole (case -1)
+	RunDir      string
+	RaceLogs    []string
+	Batch       []spec.Event // events a child emitted for the batch as a whole (case -1)
 	BatchDeaths []batchDeath // children that died with several cases in flight
-	mu       sync.Mutex
+	mu          sync.Mutex
 }
 
 var props = map[string]*Prop{}
